@@ -11,6 +11,7 @@ package flamego
 
 //@ ghost field sync.Once.fired bool
 //@ ghost field responseWriter.hdr0 int        // status lines the underlying writer had seen when it was wrapped
+//@ ghost field responseWriter.sent0 bool     // whether it had already sent one then
 //@ ghost field responseWriter.body0 int       // body bytes the underlying writer had accepted when it was wrapped
 //@ ghost field responseWriter.hookCalls int   // hooks run so far
 //@ ghost field responseWriter.hookOrder map[int]int // k-th hook run -> its registration index
@@ -22,7 +23,8 @@ package flamego
 //@ define rwInv(w *responseWriter) bool = w.ResponseWriter != nil && hooksNonNil(w) &&
 //@     (w.writeHeaderOnce.fired <==> w.status != 0) &&
 //@     w.ResponseWriter.hdrCount - w.hdr0 == ite(w.status != 0, 1, 0) &&
-//@     (w.status != 0 ==> w.ResponseWriter.firstStatus == w.status || w.hdr0 != 0) &&
+//@     w.ResponseWriter.hdrSent == (w.status != 0 || w.sent0) &&
+//@     (w.status != 0 ==> w.ResponseWriter.firstStatus == w.status || w.sent0) &&
 //@     (w.status != 0 ==> w.ResponseWriter.bodyAtHdr == w.body0) &&
 //@     w.ResponseWriter.bodyBytes - w.body0 == w.size &&
 //@     (w.status == 0 ==> w.size == 0 && w.hookCalls == 0) &&
@@ -37,6 +39,7 @@ package flamego
 //@   props C13
 //@   requires w != nil
 //@   ghost before exit: result.(*responseWriter).hdr0 = w.hdrCount
+//@   ghost before exit: result.(*responseWriter).sent0 = w.hdrSent
 //@   ghost before exit: result.(*responseWriter).body0 = w.bodyBytes
 //@   ghost before exit: result.(*responseWriter).hookCalls = 0
 //@   ensures dyn(result) == type(*responseWriter) && fresh(result)
@@ -62,7 +65,7 @@ package flamego
 //@   requires rwInv(w)
 //@   requires 100 <= s && s <= 999
 //@   modifies w.status, w.writeHeaderOnce.fired, w.hookCalls, w.hookOrder, w.hdrAtHooks, w.nHooksRun,
-//@            w.ResponseWriter.hdrCount, w.ResponseWriter.firstStatus, w.ResponseWriter.bodyAtHdr, w.ResponseWriter.ctAtHdr
+//@            w.ResponseWriter.hdrCount, w.ResponseWriter.hdrSent, w.ResponseWriter.firstStatus, w.ResponseWriter.bodyAtHdr, w.ResponseWriter.ctAtHdr
 //@   ghost after callBefore#0: w.hdrAtHooks = w.ResponseWriter.hdrCount
 //@   ghost after callBefore#0: w.nHooksRun = len(w.beforeFuncs)
 //@   ensures rwInv(w)
@@ -74,7 +77,7 @@ package flamego
 //@   props C13
 //@   requires rwInv(w)
 //@   modifies w.status, w.size, w.writeHeaderOnce.fired, w.hookCalls, w.hookOrder, w.hdrAtHooks, w.nHooksRun,
-//@            w.ResponseWriter.hdrCount, w.ResponseWriter.firstStatus, w.ResponseWriter.bodyAtHdr, w.ResponseWriter.ctAtHdr, w.ResponseWriter.bodyBytes, w.ResponseWriter.lastWrite
+//@            w.ResponseWriter.hdrCount, w.ResponseWriter.hdrSent, w.ResponseWriter.firstStatus, w.ResponseWriter.bodyAtHdr, w.ResponseWriter.ctAtHdr, w.ResponseWriter.bodyBytes, w.ResponseWriter.lastWrite
 //@   ensures rwInv(w)
 //@   ensures w.status == ite(old(w.status) == 0, 200, old(w.status))
 //@   ensures w.ResponseWriter.hdrCount == old(w.ResponseWriter.hdrCount) + ite(old(w.status) == 0, 1, 0)
@@ -87,7 +90,7 @@ package flamego
 //@   props C13
 //@   requires rwInv(w)
 //@   modifies w.status, w.writeHeaderOnce.fired, w.hookCalls, w.hookOrder, w.hdrAtHooks, w.nHooksRun,
-//@            w.ResponseWriter.hdrCount, w.ResponseWriter.firstStatus, w.ResponseWriter.bodyAtHdr, w.ResponseWriter.ctAtHdr, w.ResponseWriter.flushes
+//@            w.ResponseWriter.hdrCount, w.ResponseWriter.hdrSent, w.ResponseWriter.firstStatus, w.ResponseWriter.bodyAtHdr, w.ResponseWriter.ctAtHdr, w.ResponseWriter.flushes
 //@   ensures rwInv(w)
 //@   ensures w.status == ite(old(w.status) == 0, 200, old(w.status))
 //@   ensures w.ResponseWriter.hdrCount == old(w.ResponseWriter.hdrCount) + ite(old(w.status) == 0, 1, 0)
@@ -391,7 +394,7 @@ package flamego
 //@ ghost field xml.Encoder.dst io.Writer
 //@ ghost field xml.Encoder.indent string
 
-//@ define renderOK(r *render) bool = r.responseWriter != nil && r.responseWriter.hdrCount == 0
+//@ define renderOK(r *render) bool = r.responseWriter != nil && !r.responseWriter.hdrSent && r.responseWriter.hdrCount == 0
 
 //@ func (*render).JSON
 //@   props C17
@@ -412,7 +415,7 @@ package flamego
 //@ func (*render).Binary
 //@   props C17
 //@   requires renderOK(r)
-//@   modifies hdrOf(r.responseWriter)[*], r.responseWriter.hdrCount, r.responseWriter.firstStatus, r.responseWriter.bodyAtHdr, r.responseWriter.ctAtHdr, r.responseWriter.bodyBytes, r.responseWriter.lastWrite
+//@   modifies hdrOf(r.responseWriter)[*], r.responseWriter.hdrCount, r.responseWriter.hdrSent, r.responseWriter.firstStatus, r.responseWriter.bodyAtHdr, r.responseWriter.ctAtHdr, r.responseWriter.bodyBytes, r.responseWriter.lastWrite
 //@   ensures r.responseWriter.firstStatus == status && r.responseWriter.hdrCount == 1
 //@   ensures r.responseWriter.ctAtHdr == "application/octet-stream"
 //@   ensures r.responseWriter.lastWrite == bytes(v)
@@ -420,7 +423,7 @@ package flamego
 //@ func (*render).PlainText
 //@   props C17
 //@   requires renderOK(r)
-//@   modifies hdrOf(r.responseWriter)[*], r.responseWriter.hdrCount, r.responseWriter.firstStatus, r.responseWriter.bodyAtHdr, r.responseWriter.ctAtHdr, r.responseWriter.bodyBytes, r.responseWriter.lastWrite
+//@   modifies hdrOf(r.responseWriter)[*], r.responseWriter.hdrCount, r.responseWriter.hdrSent, r.responseWriter.firstStatus, r.responseWriter.bodyAtHdr, r.responseWriter.ctAtHdr, r.responseWriter.bodyBytes, r.responseWriter.lastWrite
 //@   ensures r.responseWriter.firstStatus == status && r.responseWriter.hdrCount == 1
 //@   ensures r.responseWriter.ctAtHdr == "text/plain; charset=" + r.opts.Charset
 //@   ensures r.responseWriter.lastWrite == s
@@ -452,12 +455,13 @@ package flamego
 //@ func defaultReturnHandler$3
 //@   props C14
 //@   skip typeassert panic@call:InterfaceOf
-//@   requires c != nil && rhWriter(c).hdrCount == 0
-//@   modifies rhWriter(c).hdrCount, rhWriter(c).firstStatus, rhWriter(c).bodyAtHdr, rhWriter(c).ctAtHdr, rhWriter(c).bodyBytes, rhWriter(c).lastWrite
+//@   requires c != nil && !rhWriter(c).hdrSent && rhWriter(c).hdrCount == 0
+//@   modifies rhWriter(c).hdrCount, rhWriter(c).hdrSent, rhWriter(c).firstStatus, rhWriter(c).bodyAtHdr, rhWriter(c).ctAtHdr, rhWriter(c).bodyBytes, rhWriter(c).lastWrite
 //@   ensures hasIntStatus(vals) ==> rhWriter(c).firstStatus == rvInt(vals[0]) && rhWriter(c).hdrCount >= 1
 //@   ensures isErrRV(respRV(vals)) ==> rhWriter(c).lastWrite == errText(rvIface(respRV(vals)).(error)) && rhWriter(c).hdrCount == ite(hasIntStatus(vals), 2, 1)
 //@   ensures isErrRV(respRV(vals)) && !hasIntStatus(vals) ==> rhWriter(c).firstStatus == 500
-//@   ensures !isErrRV(respRV(vals)) ==> rhWriter(c).hdrCount == ite(hasIntStatus(vals), 1, 0)
+//@   ensures !isErrRV(respRV(vals)) && (!rvValid(respRV(vals)) || rvZero(respRV(vals))) ==> rhWriter(c).hdrCount == ite(hasIntStatus(vals), 1, 0)
+//@   ensures !isErrRV(respRV(vals)) && rvValid(respRV(vals)) && !rvZero(respRV(vals)) ==> rhWriter(c).hdrCount == 1 && (!hasIntStatus(vals) ==> rhWriter(c).firstStatus == 200)
 //@   ensures !isErrRV(respRV(vals)) && (!rvValid(respRV(vals)) || rvZero(respRV(vals))) ==> rhWriter(c).bodyBytes == old(rhWriter(c).bodyBytes)
 //@   ensures !isErrRV(respRV(vals)) && rvValid(respRV(vals)) && !rvZero(respRV(vals)) ==>
 //@       rhWriter(c).lastWrite == ite(isBytesRV(derefRV(respRV(vals))), rvBytes(derefRV(respRV(vals))), rvString(derefRV(respRV(vals))))
@@ -475,3 +479,33 @@ package flamego
 //@   ensures result0[0] == reflect.ValueOf(iface(type(int), ret1)) && result0[1] == reflect.ValueOf(iface(type(string), ret2))
 //@ lemma[C14] teapotShape: forall n int, s string :: rvKind(reflect.ValueOf(iface(type(int), n))) == 2 && rvInt(reflect.ValueOf(iface(type(int), n))) == n &&
 //@     rvKind(reflect.ValueOf(iface(type(string), s))) == 24 && rvString(reflect.ValueOf(iface(type(string), s))) == s && rvValid(reflect.ValueOf(iface(type(string), s)))
+
+// ---------------------------------------------------------------------------
+// C15 Recovery
+// ---------------------------------------------------------------------------
+
+//@ trusted flamego.Env() r
+//@   pure
+//@ trusted flamego.Recovery$3(skip) r
+//@   pure
+
+// The handler: whatever c.Next() does (including a panic at any depth), the handler itself returns normally.
+//@ iface Context.Next(this)
+//@   modifies *
+//@   panics true
+//@ func Recovery$4
+//@   props C15
+//@   requires c != nil && logger != nil
+//@   modifies *
+
+// The deferred closure. recover() == nil: nothing happens. Otherwise: Content-Type by environment, then status 500
+// (which the response writer forwards only if no status was sent, C13), then the body; detail only in development.
+//@ func Recovery$4$1
+//@   props C15
+//@   skip typeassert panic@call:InterfaceOf
+//@   requires-captured c != nil && logger != nil
+//@   modifies hdrOf(rhWriter(c))[*], rhWriter(c).hdrCount, rhWriter(c).hdrSent, rhWriter(c).firstStatus, rhWriter(c).bodyAtHdr, rhWriter(c).ctAtHdr, rhWriter(c).bodyBytes, rhWriter(c).lastWrite
+//@   ensures err == nil ==> rhWriter(c).hdrCount == old(rhWriter(c).hdrCount) && rhWriter(c).bodyBytes == old(rhWriter(c).bodyBytes)
+//@   ensures err != nil ==> rhWriter(c).hdrCount == old(rhWriter(c).hdrCount) + 1 && (!old(rhWriter(c).hdrSent) ==> rhWriter(c).firstStatus == 500)
+//@   ensures err != nil && !old(rhWriter(c).hdrSent) ==> rhWriter(c).ctAtHdr == ite(flamego.Env() == EnvTypeDev, "text/html", "text/plain")
+//@   ensures err != nil && flamego.Env() != EnvTypeDev ==> rhWriter(c).lastWrite == http.StatusText(500)
